@@ -13,6 +13,19 @@
 (*   Tick                  before a retransmission tick is fed: every        *)
 (*                         message sent so far may be published once more,   *)
 (*                         asynchronously                                    *)
+(*   Chk(h, live)          the processing goroutine of h called ctx.Err() and *)
+(*                         got nil (live) or an error; logged atomically with *)
+(*                         the read (the harness serializes its own cancel()  *)
+(*                         calls with it). Only present when the Reset event  *)
+(*                         says chk = TRUE, i.e. when a calibration run       *)
+(*                         showed that the implementation asks ctx.Err()      *)
+(*                         exactly once per dequeued message; then Dequeue    *)
+(*                         and CheckCtx are taken together at this event (a   *)
+(*                         dequeue can always be postponed until the check:   *)
+(*                         queues never fill up in these runs and queue       *)
+(*                         lengths are only observed while the goroutine is   *)
+(*                         held inside the handler). Otherwise both are       *)
+(*                         silent steps.                                      *)
 (*   InvokeStart/End(h, m) first / last statement of the handler function    *)
 (*   ObsQueue(h, n)        len(messageHandler.channel) read atomically       *)
 (*   ObsHandlers(list)     messageHandlers read under the channel's mutex    *)
@@ -30,11 +43,12 @@
 EXTENDS Broadcast, TraceKit
 
 VARIABLES l,      \* cursor
+          chkOn,  \* Chk events are recorded in this run
           regP,   \* [Handlers -> {"idle","called","done","ret"}]
           canP,   \* [Handlers -> {"idle","called","done","ret"}]
           sc      \* pending synchronous Send / re-publication calls [c, s, m, st]
 
-tvars == <<vars, l, regP, canP, sc>>
+tvars == <<vars, l, chkOn, regP, canP, sc>>
 
 InitPrimed ==
     /\ counter' = [s \in Senders |-> 0]
@@ -54,7 +68,7 @@ InitPrimed ==
     /\ canP' = [h \in Handlers |-> "idle"]
     /\ sc' = {}
 
-TInit == /\ Init /\ l = 1 /\ HwmInit
+TInit == /\ Init /\ l = 1 /\ HwmInit /\ chkOn = FALSE
          /\ regP = [h \in Handlers |-> "idle"]
          /\ canP = [h \in Handlers |-> "idle"]
          /\ sc = {}
@@ -62,109 +76,129 @@ TInit == /\ Init /\ l = 1 /\ HwmInit
 IsEvent(e) == l <= Len(Trace) /\ Trace[l].event = e /\ l' = l + 1
 Ev == Trace[l]
 
-TReset == IsEvent("Reset") /\ InitPrimed
+TReset == IsEvent("Reset") /\ InitPrimed /\ chkOn' = Field(Ev, "chk", FALSE)
 
 ---- \* receiver lifecycle
 TRegisterCall ==
     /\ IsEvent("RegisterCall") /\ regP[Ev.h] = "idle"
     /\ regP' = [regP EXCEPT ![Ev.h] = "called"]
-    /\ UNCHANGED <<vars, canP, sc>>
+    /\ UNCHANGED <<vars, chkOn, canP, sc>>
 SRegister(h) ==
     /\ regP[h] = "called" /\ Register(h)
     /\ regP' = [regP EXCEPT ![h] = "done"]
-    /\ UNCHANGED <<l, canP, sc>>
+    /\ UNCHANGED <<l, chkOn, canP, sc>>
 TRegisterRet ==
     /\ IsEvent("RegisterRet") /\ regP[Ev.h] = "done"
     /\ regP' = [regP EXCEPT ![Ev.h] = "ret"]
-    /\ UNCHANGED <<vars, canP, sc>>
+    /\ UNCHANGED <<vars, chkOn, canP, sc>>
 
 TCancelCall ==
     /\ IsEvent("CancelCall") /\ canP[Ev.h] = "idle"
     /\ canP' = [canP EXCEPT ![Ev.h] = "called"]
-    /\ UNCHANGED <<vars, regP, sc>>
+    /\ UNCHANGED <<vars, chkOn, regP, sc>>
 SCancel(h) ==
     /\ canP[h] = "called" /\ Cancel(h)
     /\ canP' = [canP EXCEPT ![h] = "done"]
-    /\ UNCHANGED <<l, regP, sc>>
+    /\ UNCHANGED <<l, chkOn, regP, sc>>
 TCancelRet ==
     /\ IsEvent("CancelRet") /\ canP[Ev.h] = "done"
     /\ canP' = [canP EXCEPT ![Ev.h] = "ret"]
-    /\ UNCHANGED <<vars, regP, sc>>
+    /\ UNCHANGED <<vars, chkOn, regP, sc>>
 
 ---- \* senders
 TSendCall ==
     /\ IsEvent("SendCall")
     /\ sc' = sc \cup {[c |-> Ev.c, s |-> Ev.s, m |-> NoMsg, st |-> "called"]}
-    /\ UNCHANGED <<vars, regP, canP>>
+    /\ UNCHANGED <<vars, chkOn, regP, canP>>
 \* nextSeqno inside Send
 SAlloc(p) ==
     /\ p \in sc /\ p.st = "called" /\ Send(p.s)
     /\ sc' = (sc \ {p}) \cup {[p EXCEPT !.m = [s |-> p.s, n |-> counter[p.s] + 1], !.st = "alloc"]}
-    /\ UNCHANGED <<l, regP, canP>>
+    /\ UNCHANGED <<l, chkOn, regP, canP>>
 \* the publication made by the call itself
 SStart(p) ==
     /\ p \in sc /\ p.st = "alloc" /\ StartDeliverC(p.m, p.c)
     /\ sc' = (sc \ {p}) \cup {[p EXCEPT !.st = "started"]}
-    /\ UNCHANGED <<l, regP, canP>>
+    /\ UNCHANGED <<l, chkOn, regP, canP>>
 Finished(p) == p.st = "started" /\ \A d \in dl : d.c # p.c
 TSendRet ==
     /\ IsEvent("SendRet")
     /\ \E p \in sc : /\ p.c = Ev.c /\ Finished(p) /\ p.m.n = Ev.n
                      /\ sc' = sc \ {p}
-    /\ UNCHANGED <<vars, regP, canP>>
+    /\ UNCHANGED <<vars, chkOn, regP, canP>>
 \* synchronous re-publication of a message that was sent before
 TDeliverCall ==
     /\ IsEvent("DeliverCall") /\ Ev.m \in Allocated
     /\ budget' = [budget EXCEPT ![Ev.m] = @ + 1]
     /\ sc' = sc \cup {[c |-> Ev.c, s |-> Ev.m.s, m |-> Ev.m, st |-> "alloc"]}
-    /\ UNCHANGED <<counter, dl, handlers, ctxDone, removed, pc, queue, cur, seen, ninv, stale, acc, regP, canP>>
+    /\ UNCHANGED <<counter, dl, handlers, ctxDone, removed, pc, queue, cur, seen, ninv, stale, acc, chkOn, regP, canP>>
 TDeliverRet ==
     /\ IsEvent("DeliverRet")
     /\ \E p \in sc : p.c = Ev.c /\ Finished(p) /\ sc' = sc \ {p}
-    /\ UNCHANGED <<vars, regP, canP>>
+    /\ UNCHANGED <<vars, chkOn, regP, canP>>
 \* a retransmission tick: each message sent so far may be published once more
 TTick ==
     /\ IsEvent("Tick")
     /\ budget' = [m \in Msgs |-> IF m \in Allocated THEN budget[m] + 1 ELSE budget[m]]
-    /\ UNCHANGED <<counter, dl, handlers, ctxDone, removed, pc, queue, cur, seen, ninv, stale, acc, regP, canP, sc>>
+    /\ UNCHANGED <<counter, dl, handlers, ctxDone, removed, pc, queue, cur, seen, ninv, stale, acc, chkOn, regP, canP, sc>>
 
 ---- \* handler function
 TInvokeStart ==
     /\ IsEvent("InvokeStart") /\ cur[Ev.h] = Ev.m /\ Invoke(Ev.h)
-    /\ UNCHANGED <<regP, canP, sc>>
+    /\ UNCHANGED <<chkOn, regP, canP, sc>>
 TInvokeEnd ==
     /\ IsEvent("InvokeEnd") /\ cur[Ev.h] = Ev.m /\ Return(Ev.h)
-    /\ UNCHANGED <<regP, canP, sc>>
+    /\ UNCHANGED <<chkOn, regP, canP, sc>>
+
+\* ctx.Err() after a dequeue: Dequeue and CheckCtx in one step
+TChk ==
+    /\ IsEvent("Chk") /\ chkOn
+    /\ LET h == Ev.h IN
+         /\ pc[h] = "select" /\ queue[h] # <<>>
+         /\ Ev.live = ~ctxDone[h]
+         /\ queue' = [queue EXCEPT ![h] = Tail(@)]
+         /\ IF ctxDone[h]
+               THEN UNCHANGED <<pc, cur>>
+               ELSE /\ pc' = [pc EXCEPT ![h] = "checked"]
+                    /\ cur' = [cur EXCEPT ![h] = Head(queue[h])]
+    /\ UNCHANGED <<counter, budget, dl, handlers, ctxDone, removed, seen, ninv, stale, acc, chkOn, regP, canP, sc>>
 
 ---- \* observations
 TObsQueue ==
     /\ IsEvent("ObsQueue") /\ Len(queue[Ev.h]) = Ev.n
-    /\ UNCHANGED <<vars, regP, canP, sc>>
+    /\ UNCHANGED <<vars, chkOn, regP, canP, sc>>
 TObsHandlers ==
     /\ IsEvent("ObsHandlers") /\ handlers = Ev.list
-    /\ UNCHANGED <<vars, regP, canP, sc>>
+    /\ UNCHANGED <<vars, chkOn, regP, canP, sc>>
 
 ---- \* silent steps
 \* asynchronous publications (retransmission goroutines) use only what a Tick granted:
 \* the budget of a pending synchronous call is reserved for it
 Reserved(m) == Cardinality({p \in sc : p.m = m /\ p.st = "alloc"})
 SAsync == \E m \in Msgs : budget[m] > Reserved(m) /\ StartDeliver(m)
+\* The filter's test-and-set touches nothing another step reads: taking it as
+\* soon as it is enabled loses no behaviour and saves TLC the interleavings.
+Urgent == \E h \in Handlers : pc[h] = "checked"
 Silent ==
-    /\ l' = l
-    /\ \/ \E h \in Handlers : SRegister(h) \/ SCancel(h)
-       \/ \E p \in sc : SAlloc(p) \/ SStart(p)
-       \/ /\ UNCHANGED <<regP, canP, sc>>
-          /\ \/ SAsync
-             \/ DoTrySend \/ DoRemoveHandler \/ DoExitOnDone
-             \/ DoDequeue \/ DoCheckCtx \/ DoFilterDup
+    /\ l' = l /\ chkOn' = chkOn
+    /\ IF Urgent THEN DoFilterDup /\ UNCHANGED <<regP, canP, sc>>
+       ELSE \/ \E h \in Handlers : SRegister(h) \/ SCancel(h)
+            \/ \E p \in sc : SAlloc(p) \/ SStart(p)
+            \/ /\ UNCHANGED <<regP, canP, sc>>
+               /\ \/ SAsync
+                  \/ DoTrySend \/ DoRemoveHandler \/ DoExitOnDone
+                  \/ (~chkOn /\ (DoDequeue \/ DoCheckCtx))
 
-TNext == \/ TReset
-         \/ TRegisterCall \/ TRegisterRet \/ TCancelCall \/ TCancelRet
-         \/ TSendCall \/ TSendRet \/ TDeliverCall \/ TDeliverRet \/ TTick
-         \/ TInvokeStart \/ TInvokeEnd \/ TObsQueue \/ TObsHandlers
-         \/ Silent
+Pinned == \/ TReset
+          \/ TRegisterCall \/ TRegisterRet \/ TCancelCall \/ TCancelRet
+          \/ TSendCall \/ TSendRet \/ TDeliverCall \/ TDeliverRet \/ TTick
+          \/ TChk \/ TInvokeStart \/ TInvokeEnd \/ TObsQueue \/ TObsHandlers
+TNext == (~Urgent /\ Pinned) \/ Silent
 TSpec == TInit /\ [][TNext]_tvars
 
 Hwm == HwmConstraint(l)
 Accepted == HwmAccepted
+\* Checked as an "invariant": its violation means the whole trace was consumed
+\* on some path, so TLC can stop at the first complete explanation.
+NotDone == l <= Len(Trace)
 =============================================================================
